@@ -165,6 +165,33 @@ theorem await_bounded (s : St) (w : Nat) :
     | none => simp
     | some g => simp only []; cases s.results g <;> simp
 
+/-- at every position of every script: what an idle waiter's Await observes is determined by the
+history alone -/
+theorem await_obs_history (pre : List Op) (n : Name) (w : Nat) (hidle : (exec init pre).1.waiters w = none) :
+    (step (exec init pre).1 (.await w n)).2 =
+      [match epochMid n pre with
+        | none => .err
+        | some mid => match firstComplete n mid with | some t => .trace t | none => .waiting] := by
+  have h := hist_of_history pre n
+  show [awaitObs (exec init pre).1 w n] = _
+  cases hem : epochMid n pre with
+  | none => rw [hem] at h; simp [awaitObs, hidle, h]
+  | some mid =>
+    rw [hem] at h
+    obtain ⟨g, hg, hr⟩ := h
+    cases hf : firstComplete n mid <;> simp [awaitObs, hidle, hg, hr, hf, resOf]
+
+
+/-- On EVERY script — any names, waiters, re-initialisations, clears, completions, joins and
+cancellations in any order — the state machine allows at every position exactly the observations
+that the history-based specification `specObs` allows (the predicate the check evaluates on the
+real Tracer's output): the outcome of every Await is a function of the history of
+Init/Clear/Complete alone. -/
+theorem exec_eq_spec (ops : List Op) : (exec init ops).2 = specObs ops := by
+  have := exec_spec_go ops [] [] init wf_init hist_init rel_init
+  simpa [specObs] using this
+
+
 /-- the history-based expectation used by the check's predicate and the state machine agree on
 a script that exercises re-initialisation, clearing, late and early completion (the check
 compares the two on every generated script as well) -/
